@@ -35,6 +35,7 @@ def run(ctx):
             if g.view_fits(s) and s.cpp_type() not in seen:
                 seen.add(s.cpp_type())
                 stacks.append(s)
+    stacks, _over = g.filter_by_real_view_size(ctx, stacks, c02.HDR2)
     per_tu = 30
     tus = []
     for b in range(0, len(stacks), per_tu):
